@@ -819,6 +819,52 @@ func (x *Exec) evalCall(e *Expr, env *Env) Val {
 		}
 		op := map[string]string{"fpeq": "fp.eq", "fplt": "fp.lt", "fpgt": "fp.gt", "fple": "fp.leq", "fpge": "fp.geq"}[e.Name]
 		return specBool(sx(op, fpTerm(as[0], w), fpTerm(as[1], w)))
+	case "prev":
+		// prev(x): the value of the local variable x at the start of the current loop iteration (loop invariants, step phase)
+		if len(e.Args) != 1 || e.Args[0].Op != "ident" || env.fr == nil || env.fr.curLoop == nil {
+			bail("prev(x) expects a local variable name inside a loop invariant")
+		}
+		head := env.fr.curLoop.Head
+		hs := env.fr.headSnap[head]
+		if hs == nil {
+			// establishing the invariant before the first iteration: there is no previous iteration
+			return x.evalSpec(e.Args[0], env)
+		}
+		name := e.Args[0].Name
+		for ph, v := range env.fr.headPhi[head] {
+			if ph.Comment == name {
+				return v
+			}
+		}
+		if al := allocNamed(env.fr, name); al != nil {
+			if pv, ok := env.fr.vals[al]; ok && pv.K == KPtr && pv.Ptr != nil {
+				if pv.Ptr.Local != nil {
+					if v, ok := env.fr.headCells[head][pv.Ptr.Local]; ok && len(pv.Ptr.Path) == 0 {
+						return v
+					}
+				} else {
+					return x.specLoad(&Env{st: env.st, vars: env.vars, old: hs, useOld: true, pkg: env.pkg}, pv.Ptr)
+				}
+			}
+		}
+		for _, b := range env.fr.fn.Blocks {
+			for _, in := range b.Instrs {
+				dr, ok := in.(*ssa.DebugRef)
+				if !ok || !dr.IsAddr || dr.Object() == nil || dr.Object().Name() != name {
+					continue
+				}
+				if pv, ok := env.fr.vals[dr.X]; ok && pv.K == KPtr && pv.Ptr != nil {
+					if pv.Ptr.Local != nil {
+						if v, ok := env.fr.headCells[head][pv.Ptr.Local]; ok && len(pv.Ptr.Path) == 0 {
+							return v
+						}
+						continue
+					}
+					return x.specLoad(&Env{st: env.st, vars: env.vars, old: hs, useOld: true, pkg: env.pkg}, pv.Ptr)
+				}
+			}
+		}
+		bail("prev(%s): not a loop-carried or address-taken local", name)
 	case "called":
 		// called(f): the function under verification called f (directly) on this path
 		if len(e.Args) != 1 {
@@ -846,7 +892,10 @@ func (x *Exec) evalCall(e *Expr, env *Env) Val {
 		nm, idx := calleeName(e.Args[0]), e.Args[1].String()
 		v, ok := env.st.callVals[nm+":"+idx]
 		if !ok {
-			bail("unknown identifier: callret(%s, %s): no such call on this path", nm, idx)
+			// no such call on this path: an arbitrary error value (guard with called(f)); never skips the clause
+			n := x.freshName("nocall")
+			env.st.declare(n, "Err")
+			return Val{K: KErr, T: n, Typ: types.Universe.Lookup("error").Type()}
 		}
 		return v
 	case "egerr":
